@@ -619,8 +619,14 @@ func TestChild(t *testing.T) {
 			if stuck {
 				if ok, desc := mon.ProvenBlockIgnoringPollers("gribigo/client.(*Client).", time.Second, "github.com/openconfig/gribigo/client."); ok {
 					col.Violation(caseID, "client-blocked:"+strings.ReplaceAll(strings.SplitN(st.current, " (", 2)[0], " ", "-")+":"+blockFns(desc), "after "+f.String()+" the step '"+st.current+"' never returned and the client is permanently blocked: "+desc, map[string]any{"fault": f.String()})
+				} else if spin, sdesc := mon.ProvenSpin("gribigo/client.(*Client).", time.Second, "github.com/openconfig/gribigo/client."); spin {
+					fn := sdesc
+					if i := strings.Index(fn, "] "); i >= 0 {
+						fn = strings.SplitN(fn[i+2:], " < ", 2)[0]
+					}
+					col.Violation(caseID, "client-spinning:"+strings.ReplaceAll(strings.SplitN(st.current, " (", 2)[0], " ", "-")+":"+fn, "after "+f.String()+" the step '"+st.current+"' has not returned for a minute; the calling goroutine is the only goroutine of the client left and sits in the same polling loop in three dumps a second apart (nobody is left who could end it): "+sdesc, map[string]any{"fault": f.String()})
 				} else {
-					col.Inconclusive(caseID + ": step '" + st.current + "' hit the watchdog without a proven block: " + desc)
+					col.Inconclusive(caseID + ": step '" + st.current + "' hit the watchdog without a proven block: " + desc + " / " + sdesc)
 				}
 				col.Flush()
 				return
